@@ -22,6 +22,7 @@ import (
 	"github.com/bartossh/Computantis/src/wallet"
 	msgpackv2 "github.com/shamaton/msgpack/v2"
 	"github.com/vmihailenco/msgpack"
+	"google.golang.org/protobuf/encoding/protowire"
 	"google.golang.org/protobuf/proto"
 )
 
@@ -244,6 +245,7 @@ func runCodec(tier string, seed int64, summaryPath, outPath string) {
 		// ---- protobuf: real mapping -> real Marshal -> real Unmarshal -> real mapping back
 		pv := gossip.VerifMapVertexToProto(&v)
 		raw, err := proto.Marshal(pv)
+		pbErr := err
 		sum.Evaluations++
 		if err != nil {
 			sum.Kinds["proto.marshal_error"]++
@@ -325,7 +327,7 @@ func runCodec(tier string, seed int64, summaryPath, outPath string) {
 				take := tier == "thorough" || (len(curGens) == 0 && (sweep || ci%3 == 0)) || (len(curGens) > 0 && sweep && c.isig < 2048 && c.rsig < 2048)
 				if !take {
 					sum.Kinds["msgpack.byte_exact_left_to_thorough"]++
-				} else if c := mvtxCoq(&v, enc, tenc); len(c) < 40000 {
+				} else if c := mvtxCoq(&v, enc, tenc, pbWire(pv, raw, pbErr, &sum, viol, ci)); len(c) < 40000 {
 					mpCases = append(mpCases, c)
 					sum.Kinds["msgpack.byte_exact_cases"]++
 					if len(curGens) > 0 {
@@ -449,7 +451,7 @@ func runCodec(tier string, seed int64, summaryPath, outPath string) {
 	b.WriteString("Definition bad_proto := map fst (filter (fun p => match snd p with (v, w, g) => negb (aeq (to_proto v) w && aeq (of_proto w) g) end) (combine (seq 0 (length proto_cases)) proto_cases)).\n")
 	b.WriteString("Definition bad_u64 := map fst (filter (fun p => match snd p with (x, e) => negb (bytes_eqb (enc_u64 x) e && match dec_u64 e with Some (y, []) => Z.eqb x y | _ => false end) end) (combine (seq 1000 (length u64_cases)) u64_cases)).\n")
 	b.WriteString("Definition bad_time := map fst (filter (fun p => match snd p with (s, n, e) => negb (bytes_eqb (enc_time s n) e && match dec_time e with Some (s', n') => Z.eqb s s' && Z.eqb n n' | None => false end) end) (combine (seq 2000 (length time_cases)) time_cases)).\n")
-	b.WriteString("Import Coq.Strings.String.\nDefinition mp_cases : list (mvtx * list seg * list seg) := [\n" + strings.Join(mpCases, ";\n") + "].\n")
+	b.WriteString("Import Coq.Strings.String.\nDefinition mp_cases : list mpcase := [\n" + strings.Join(mpCases, ";\n") + "].\n")
 	b.WriteString("Definition bad := Eval vm_compute in (app (app (app bad_proto bad_u64) bad_time) (bad_msgpack 3000 mp_cases)).\nPrint bad.\n")
 	os.WriteFile(outPath, b.Bytes(), 0644)
 	js, _ := json.MarshalIndent(sum, "", " ")
@@ -523,12 +525,74 @@ func coqZ(x int64) string {
 	return fmt.Sprintf("%d%%Z", x)
 }
 
+// pbWire: the protobuf wire bytes of the mapped vertex (proto.Marshal), the same records in reverse order followed by an unknown
+// field (what proto.Unmarshal must read as the same message), and for small messages the verdict of proto.Unmarshal on every proper prefix
+type pbw struct {
+	raw, alt []byte
+	mask     string
+}
+
+func pbWire(pv *protobufcompiled.Vertex, raw []byte, merr error, sum *codecSummary, viol func(string, map[string]any), ci int) *pbw {
+	if merr != nil || raw == nil {
+		return nil
+	}
+	w := &pbw{raw: raw}
+	var recs [][]byte
+	for rest := raw; len(rest) > 0; {
+		_, _, n := protowire.ConsumeField(rest)
+		if n < 0 {
+			viol("protowire-own-output-not-parsable", map[string]any{"case": ci})
+			return nil
+		}
+		recs = append(recs, rest[:n])
+		rest = rest[n:]
+	}
+	for i := len(recs) - 1; i >= 0; i-- {
+		w.alt = append(w.alt, recs[i]...)
+	}
+	w.alt = protowire.AppendTag(w.alt, 15, protowire.VarintType)
+	w.alt = protowire.AppendVarint(w.alt, 7)
+	var back protobufcompiled.Vertex
+	if err := proto.Unmarshal(w.alt, &back); err != nil {
+		viol("protowire-reordered-records-refused", map[string]any{"case": ci, "err": err.Error()})
+		return nil
+	}
+	back.ProtoReflect().SetUnknown(nil)
+	if again, err := proto.Marshal(&back); err != nil || !bytes.Equal(again, raw) {
+		viol("protowire-reordered-records-read-differently", map[string]any{"case": ci})
+		return nil
+	}
+	sum.Kinds["protowire.byte_exact_cases"]++
+	sum.Kinds["protowire.reordered_plus_unknown_field"]++
+	if len(raw) <= 700 && sum.Kinds["protowire.prefix_swept_cases"] < 10 {
+		var m strings.Builder
+		for i := 0; i < len(raw); i++ {
+			var p protobufcompiled.Vertex
+			if proto.Unmarshal(raw[:i], &p) == nil {
+				m.WriteByte('1')
+				sum.Kinds["protowire.prefixes_accepted"]++
+			} else {
+				m.WriteByte('0')
+				sum.Kinds["protowire.prefixes_refused"]++
+			}
+		}
+		w.mask = m.String()
+		sum.Kinds["protowire.prefix_swept_cases"]++
+	}
+	return w
+}
+
 // mvtxCoq: a vertex as model fields next to the bytes the real encoders produced
-func mvtxCoq(v *accountant.Vertex, venc, tenc []byte) string {
+func mvtxCoq(v *accountant.Vertex, venc, tenc []byte, w *pbw) string {
 	t := &v.Transaction
-	return fmt.Sprintf("(MC (HV %s %s %s %s %s %s %s %s %s %s %s %s %s %d%%Z %d%%Z %s %s %s %d%%Z) %s %s)",
+	head, tail := "MC", ""
+	if w != nil {
+		head = "MCP"
+		tail = fmt.Sprintf(" %s %s \"%s\"", coqSegs(w.raw), coqSegs(w.alt), w.mask)
+	}
+	return fmt.Sprintf("(%s (HV %s %s %s %s %s %s %s %s %s %s %s %s %s %d%%Z %d%%Z %s %s %s %d%%Z) %s %s%s)", head,
 		coqSegs([]byte(v.SignerPublicAddress)), coqZ(v.CreatedAt.Unix()), coqZ(int64(v.CreatedAt.Nanosecond())), coqOSegs(v.Signature),
 		coqZ(t.CreatedAt.Unix()), coqZ(int64(t.CreatedAt.Nanosecond())), coqSegs([]byte(t.IssuerAddress)), coqSegs([]byte(t.ReceiverAddress)), coqSegs([]byte(t.Subject)),
 		coqOSegs(t.Data), coqOSegs(t.IssuerSignature), coqOSegs(t.ReceiverSignature), coqSegs(t.Hash[:]), t.Spice.Currency, t.Spice.SupplementaryCurrency,
-		coqSegs(v.Hash[:]), coqSegs(v.LeftParentHash[:]), coqSegs(v.RightParentHash[:]), v.Weight, coqSegs(venc), coqSegs(tenc))
+		coqSegs(v.Hash[:]), coqSegs(v.LeftParentHash[:]), coqSegs(v.RightParentHash[:]), v.Weight, coqSegs(venc), coqSegs(tenc), tail)
 }
